@@ -1056,7 +1056,7 @@ impl BuiltInFunction {
                     unreachable!()
                 };
 
-                Ok((Some(Primitive::Bool(map.contains_key(key))), None))
+                Ok((Some(Primitive::Bool(map.contains_key(key)?)), None))
             }
             Self::MapReplace => {
                 let (Some(Primitive::Map(map)), Some(key), Some(value)) =
